@@ -128,10 +128,37 @@ class Translator:
                 continue
             if n.get('_parent', {}) and (n['_parent'] or {}).get('kind') == 'ClassTemplateDecl':
                 continue        # the pattern of a template is not a type
+            if not self.qual_matches(n, base):
+                continue
             return n
         if args is not None:
             return self.instantiate_pattern(short, args)
         return None
+
+    def decl_chain(self, n):
+        """names of the enclosing classes / namespaces of a declaration, innermost first"""
+        out, par, hops = [], n, 0
+        while par is not None and hops < 12:
+            nxt = self.db.byid.get(par.get('parentDeclContextId')) if par.get('parentDeclContextId') else par.get('_parent')
+            if nxt is None:
+                break
+            if nxt.get('kind') in ('CXXRecordDecl', 'ClassTemplateSpecializationDecl', 'NamespaceDecl', 'ClassTemplateDecl'):
+                if nxt.get('kind') != 'ClassTemplateDecl':
+                    out.append(nxt.get('name') or '(anonymous namespace)')
+            par, hops = nxt, hops + 1
+        return out
+
+    def qual_matches(self, n, base):
+        """does the (possibly partially) qualified spelling `base` name declaration n?"""
+        comps = [c for c in re.sub(r'<[^<>]*>', '', base).split('::') if c][:-1]
+        if not comps:
+            return True
+        chain = self.decl_chain(n)          # innermost first
+        if len(chain) == 0:
+            return True                     # top-level dump without parent information: cannot refute
+        want = list(reversed(comps))
+        m = min(len(chain), len(want))
+        return chain[:m] == want[:m]
 
     def instantiate_pattern(self, short, args):
         """implicit instantiation (clang dumps no body for it): the template pattern's fields with the template
@@ -464,7 +491,7 @@ class Translator:
         if n.get('isArrow'):
             if base == 'self':
                 return 'self->' + name
-            if base.startswith('OPT_VAL('):
+            if base.startswith('OPT_VAL(') or base.startswith('UPTR_VAL('):
                 return base + '.' + name
             return '(%s)->%s' % (base, name)
         return self._arrow(base) + name
@@ -682,6 +709,9 @@ class Translator:
             return '({ %s verif_tmp; %s(%s); verif_tmp; })' % (ct, cn, al)
         if kind and kind[0] == 'rec' and not args and n.get('zeroing'):
             return '((%s){ 0 })' % ct
+        if ct.startswith('struct ') and not kind and not args:
+            # an abstraction struct declared by the unit's prelude (typemap): default construction = empty / zero
+            return '((%s){ 0 })' % ct
         self.abort(n, 'construction of %s via %s' % (ct, ctor_t))
     e_CXXTemporaryObjectExpr = e_CXXConstructExpr
 
@@ -732,7 +762,7 @@ class Translator:
             return ptr
         if x.startswith('(*') and x.endswith(')') and self._balanced(x[2:-1]):
             return x[2:-1]
-        if self._lvalue_text(x) or re.match(r'(OPT_VAL\(|\(?[A-Za-z_]\w*(\.|->))', x) and not re.search(r'\w\(', x.replace('OPT_VAL(', '')):
+        if self._lvalue_text(x) or re.match(r'(OPT_VAL\(|UPTR_VAL\(|\(?[A-Za-z_]\w*(\.|->))', x) and not re.search(r'\w\(', x.replace('OPT_VAL(', '').replace('UPTR_VAL(', '')):
             return '&' + x
         if a.get('valueCategory') == 'lvalue' and not re.match(r'[A-Za-z_]\w*\(', x):
             return '&' + x
@@ -803,7 +833,10 @@ class Translator:
         obj = me['inner'][0]
         ref = {'id': me.get('referencedMemberDecl'), 'name': me.get('name')}
         o = self.e(obj)
-        if me.get('isArrow'):
+        if me.get('isArrow') and o.startswith(('OPT_VAL(', 'UPTR_VAL(')):
+            # x->f() through optional / unique_ptr: the translated operand is the object itself
+            ptr = '&' + o
+        elif me.get('isArrow'):
             ptr = o
         else:
             ptr = o[2:-1] if (o.startswith('(*') and o.endswith(')') and self._balanced(o[2:-1])) else (
@@ -956,6 +989,9 @@ class Translator:
             if name == 'operator<<' and fam in ('std::basic_ostream', 'std::ostream', 'std::basic_ofstream', 'std::basic_fstream',
                                                 'std::basic_ostringstream', 'std::basic_stringstream') and len(args) == 2:
                 return self.stream_put(n, args)
+            if name in ('operator*', 'operator->') and fam in ('std::unique_ptr', 'unique_ptr') and len(args) == 1:
+                self.cur.stubs.add('std::unique_ptr modelled as the owned object (never null)')
+                return 'UPTR_VAL(%s)' % A(0)
             if name in ('operator*', 'operator->') and fam in ('std::optional', 'optional') and len(args) == 1:
                 return 'OPT_VAL(%s)' % A(0)
             key = 'op:%s:%s' % (fam, name)
@@ -1012,7 +1048,8 @@ class Translator:
             if rx.search(q):
                 al = []
                 if obj is not None:
-                    al.append(obj[2] or obj[1])
+                    # the object is passed as an lvalue EXPRESSION (macros have value syntax)
+                    al.append('(*%s)' % obj[1] if (obj[2] is not None and obj[2] == obj[1] and not obj[1].startswith(('&', 'OPT_VAL(', 'UPTR_VAL('))) else obj[1])
                 al += [self.lit_or_expr(a) for a in args if a.get('kind') != 'CXXDefaultArgExpr']
                 self.cur.stubs.add(macro)
                 return '%s(%s)' % (macro, ', '.join(al))
@@ -1773,6 +1810,16 @@ class Translator:
             return self._rec_cache[key]
         name = rec.get('name', 'anon')
         targs = [self._targ(k) for k in rec.get('inner', []) if k.get('kind') == 'TemplateArgument']
+        # nested classes are named with their enclosing classes (two classes called Impl must not collide)
+        chain, par, hops = [], rec, 0
+        while par is not None and hops < 6:
+            nxt = self.db.byid.get(par.get('parentDeclContextId')) if par.get('parentDeclContextId') else par.get('_parent')
+            if nxt is None or nxt.get('kind') not in ('CXXRecordDecl', 'ClassTemplateSpecializationDecl'):
+                break
+            chain.append(nxt.get('name', ''))
+            par, hops = nxt, hops + 1
+        if chain:
+            name = '_'.join(reversed(chain)) + '_' + name
         full = name + ('<' + ', '.join(targs) + '>' if targs else '')
         cname = None
         for rx, cn in self.records.items():
